@@ -64,6 +64,11 @@ pub enum Delivery {
     CancelRequested(u16),
     /// the account (true) / market (false) connection of an exchange reports that it reconnects
     Reconnecting { account: bool, ex: u8 },
+    /// the selected message's content arrives in a form that is not the item's own report kind: a
+    /// full L2 book snapshot whose top is the selected L1 message, or an order report in the
+    /// cancel-in-flight state wrapping the selected open report. Such a message may or may not be
+    /// taken as news for the item, but it must never roll the item back.
+    Indirect(u16),
 }
 
 #[derive(Debug, Clone, Serialize, Deserialize)]
@@ -214,6 +219,7 @@ impl Check for MaxTimestampWins {
                     12 => any::<u16>().prop_map(Delivery::One),
                     2 => prop::collection::vec(any::<u16>(), 1..5).prop_map(Delivery::Packed),
                     2 => any::<u16>().prop_map(Delivery::CancelRequested),
+                    2 => any::<u16>().prop_map(Delivery::Indirect),
                     1 => (any::<bool>(), 0u8..2).prop_map(|(account, ex)| Delivery::Reconnecting { account, ex }),
                 ],
                 1..max_d,
@@ -248,6 +254,7 @@ impl Check for MaxTimestampWins {
         };
         let (mut stale, mut dup, mut equal_ts, mut packed) = (0u32, 0u32, 0u32, 0u32);
         let (mut cancels, mut reconnects, mut stale_after_cancel, mut stale_after_reconnect) = (0u32, 0u32, 0u32, 0u32);
+        let mut indirect = 0u32;
 
         for (n, del) in case.deliveries.iter().enumerate() {
             // build the engine-level events for this delivery
@@ -279,6 +286,54 @@ impl Check for MaxTimestampWins {
                                 bad!("cancel-request-changed-held-item", "delivery {n} {del:?}: recording a cancel request changed what is held for {k:?}: {:?} -> {now:?}", before[i]);
                             }
                         }
+                    }
+                    continue;
+                }
+                Delivery::Indirect(sel) => {
+                    let m = *pick(*sel);
+                    let k = w.canon(m.key);
+                    let event: Option<EngineEvent<DataKind>> = match k {
+                        Key::L1 { inst } => {
+                            let t = ts(T0_MS + m.t as i64 * 1000);
+                            let inst = InstrumentIndex(inst as usize);
+                            let book = barter_data::books::OrderBook::new(m.v as u64, Some(t), vec![Level::new(Decimal::from(m.v), Decimal::ONE)], vec![Level::new(Decimal::from(m.v as u32 + 1), Decimal::TWO)]);
+                            Some(MarketEvent { time_exchange: t, time_received: t, exchange: w.indexed.instruments()[inst.index()].value.exchange.value, instrument: inst, kind: DataKind::OrderBook(barter_data::subscription::book::OrderBookEvent::Snapshot(book)) }.into())
+                        }
+                        Key::Order { .. } => {
+                            let mut o = w.order(&m);
+                            if let OrderState::Active(ActiveOrderState::Open(open)) = o.state.clone() {
+                                o.state = OrderState::active(barter_execution::order::state::CancelInFlight { order: Some(open) });
+                            }
+                            Some(AccountEvent { exchange: w.exchange_of(m.key), kind: AccountEventKind::OrderSnapshot(Snapshot(o)) }.into())
+                        }
+                        _ => None,
+                    };
+                    let Some(event) = event else { continue };
+                    let before: Vec<Option<(i64, String)>> = all_keys.iter().map(|k| held(&state, *k)).collect();
+                    match &event {
+                        EngineEvent::Account(barter::execution::AccountStreamEvent::Item(a)) => {
+                            let _ = state.update_from_account(a);
+                        }
+                        EngineEvent::Market(barter_data::streams::consumer::MarketStreamEvent::Item(me)) => state.update_from_market(me),
+                        _ => unreachable!(),
+                    }
+                    let _ = rig.engine.process(event);
+                    indirect += 1;
+                    for (i, key) in all_keys.iter().enumerate() {
+                        let now = held(&state, *key);
+                        if now == before[i] {
+                            continue;
+                        }
+                        if *key != k {
+                            bad!("unaddressed-key-changed", "delivery {n} {del:?} changed {key:?}: {:?} -> {now:?}", before[i]);
+                        }
+                        // taken as news: then it is this message's content, and not older than what was held
+                        let (t_new, v_new) = now.clone().unwrap_or((i64::MIN, String::new()));
+                        let t_old = before[i].as_ref().map(|b| b.0).unwrap_or(i64::MIN);
+                        if now.is_none() || t_new < t_old || t_new != m.t as i64 {
+                            bad!("rolled-back-by-indirect-message", "delivery {n} {del:?} (content {m:?}): {key:?} went from {:?} to {now:?}", before[i]);
+                        }
+                        delivered.entry(*key).or_default().entry(t_new).or_default().push(v_new);
                     }
                     continue;
                 }
@@ -403,6 +458,7 @@ impl Check for MaxTimestampWins {
         rep.class_if(equal_ts > 0, "equal_timestamp_different_value");
         rep.class_if(packed > 0, "packed_account_snapshot");
         rep.class_if(stale_after_cancel > 0, "stale_order_report_after_cancel_request");
+        rep.class_if(indirect > 0, "content_arrives_as_l2_snapshot_or_cancel_in_flight_report");
         rep.class_if(stale_after_reconnect > 0, "stale_delivery_after_reconnect_notice");
         rep.nontrivial = stale > 0 && dup > 0 && equal_ts > 0;
         rep
@@ -410,7 +466,7 @@ impl Check for MaxTimestampWins {
 }
 
 pub fn run(ctx: &mut Ctx) {
-    ctx.rule = "max_timestamp_wins: 1..14|24 timestamped messages over keys {2 assets' balances, 2x2 orders' partially filled open reports, 3 instruments' L1 books, 3 instruments' public trades} with timestamps from a 5-value range (equal timestamps common), delivered 1..40|90 times as a generated selection with repetition, ~12% packed into full account snapshots, interleaved with cancel requests recorded for tracked orders (12%) and account / market reconnect notices (6%), through EngineState::update_from_* and Engine::process on a 2-exchange / 3-instrument state. non-trivial = >= 1 stale delivery AND >= 1 exact duplicate AND >= 1 equal-timestamp pair with different values; distinct by hash of the case.".into();
+    ctx.rule = "max_timestamp_wins: 1..14|24 timestamped messages over keys {2 assets' balances, 2x2 orders' partially filled open reports, 3 instruments' L1 books, 3 instruments' public trades} with timestamps from a 5-value range (equal timestamps common), delivered 1..40|90 times as a generated selection with repetition, ~12% packed into full account snapshots, interleaved with cancel requests recorded for tracked orders (12%) account / market reconnect notices (6%) and messages that carry an item's content indirectly (12%: a full L2 snapshot topped by an L1 message, an order report in the cancel-in-flight state wrapping an open report — these may be taken as news or not, but never roll the item back), through EngineState::update_from_* and Engine::process on a 2-exchange / 3-instrument state. non-trivial = >= 1 stale delivery AND >= 1 exact duplicate AND >= 1 equal-timestamp pair with different values; distinct by hash of the case.".into();
     ctx.assumptions = vec![
         "OrderBookL1.last_update_time == event.time_exchange as every connector sets it; timestamps after 1970".into(),
         "messages with equal timestamps and different values: either delivered value may be held".into(),
